@@ -24,7 +24,7 @@ RULE_TEXT = (
 ASSUMPTIONS = [
     "hand evaluation follows tests/test_for_integrators.py: groups tried in order until one holds, conjunctive inside, captures only if postconditions exist, invariants selected for calls first",
 ]
-RUNS = {"quick": 2400, "thorough": 60000}
+RUNS = {"quick": 6000, "thorough": 90000}
 BUDGET_S = {"quick": 70, "thorough": 1200}
 CHUNK = 25
 
